@@ -979,6 +979,18 @@ func GenProg(t *rapid.T, pf Profile) *Prog {
 			m.Opts.Typecast = 1
 			it.Methods = append(it.Methods, m)
 		}
+		// instantiated generic types as operands and additional arguments
+		if pf.ExtStructs && rapid.IntRange(0, 7).Draw(t, "genericOperands") == 0 {
+			m := Method{Name: fmt.Sprintf("Convert%02dGeneric", mi), SrcType: "LBox[int]", DstType: rapid.SampledFrom([]string{"ext.Box[int]", "LBox[int]", "ext.Box[int64]"}).Draw(t, "genericDst"), SrcPtr: true, DstPtr: rapid.Bool().Draw(t, "genericDstPtr")}
+			mi++
+			if rapid.Bool().Draw(t, "genericExtra") {
+				m.Extras = []Param{{Type: "LBox[string]"}, {Type: "[]LPair[string, ext.MyInt]"}}
+			}
+			if rapid.Bool().Draw(t, "genericTypecast") {
+				m.Opts.Typecast = 1
+			}
+			it.Methods = append(it.Methods, m)
+		}
 		// operand types that reach the setup file through a dot import (written without qualifier there and in the output)
 		if pf.ExtStructs && rapid.IntRange(0, 7).Draw(t, "dotTypes") == 0 {
 			m := Method{Name: fmt.Sprintf("Convert%02dDotTypes", mi), SrcType: "DotS", DstType: "DotD", SrcPtr: rapid.Bool().Draw(t, "dotSrcPtr"), DstPtr: true}
